@@ -103,6 +103,34 @@ theorem shared_after_bridging (ms : List Nat) (hnd : ms.Nodup) (x y : Nat) (hx :
     rw [this]; simpa using hz
   exact ⟨h.shared x (hseen x hx) y (hseen y hy), h.sym x y, h.linked x (hseen x hx) y (hseen y hy)⟩
 
+/-- … and likewise for the other bridging discipline of the code, the all-pairs loop of the update tool
+(`for node1 in nodes: for node2 in nodes: node1.bridge_with_node(node2)`): afterwards every two distinct
+nodes of the class are linked to each other DIRECTLY (the `bridged` relation is a clique, not only
+connected — `shared_started_workers`, `shared_results` read direct neighbours only) and reference the
+same register objects (those of the last node).  Any number of nodes, any order. -/
+theorem shared_after_all_pairs (ms : List Nat) (hnd : ms.Nodup) (x y : Nat) (hx : x ∈ ms) (hy : y ∈ ms) (hxy : x ≠ y) :
+    let b := allPairs ms { regOf := [], bridged := [] }
+    b.isBridged x y = true ∧ b.isBridged y x = true ∧ b.reg x = b.reg y := by
+  intro b
+  have h0 : PairsInv [] ms { regOf := [], bridged := [] } := by
+    refine ⟨by simp, ?_, ?_, by simp⟩
+    · intro a c h; simp [Bridging.isBridged] at h
+    · intro c _; rfl
+  have h := pairsInv_foldl ms hnd [] ms (by simp) _ h0
+  have hl := h.linked x hx y (by simpa using hy) hxy
+  refine ⟨hl.1, hl.2, ?_⟩
+  have hx' := h.regDone x hx
+  have hy' := h.regDone y hy
+  simp only [List.append_nil] at hx' hy'
+  cases hl' : ms.getLast? with
+  | none => simp at hl'; subst hl'; simp at hx
+  | some l =>
+    rw [hl'] at hx' hy'
+    show (allPairs ms _).reg x = (allPairs ms _).reg y
+    unfold allPairs
+    rw [hx', hy']
+    rfl
+
 /-- A visit registered through one member of a bridged class is read through every member: the two
 nodes address the same register object, hence the same counters. -/
 theorem visit_seen_by_all (regs : Nat → Register) (b : Bridging) (x y : Nat) (h : b.reg x = b.reg y)
@@ -139,6 +167,7 @@ example : get (insertAll [(["a", "b"], 0), (["b", "c"], 1)]) ["a", "b", "c"] = [
 
 example : getCounters (registerAll [("n", "net1"), ("n", "net2"), ("n", "net1"), ("m", "net1")]) (some "n") (some "net1") = 2 := by
   decide
+example : (allPairs [0, 1, 2] { regOf := [], bridged := [] }).isBridged 1 2 = true := by decide
 example : (([0, 1, 2].foldl arrive ({ regOf := [], bridged := [] }, [])).1.reg 0
     = ([0, 1, 2].foldl arrive ({ regOf := [], bridged := [] }, [])).1.reg 2) := by decide
 
